@@ -51,8 +51,9 @@ def in_loop_blocks(fn):
     return s
 
 
-def flow(fn, gens):
+def flow(fn, gens, summaries=None):
     """forward dataflow; returns {call node: (ctx text, frozenset of possible flag values)}"""
+    summaries = summaries or {}
     ctxp = fn.vars[fn.params[0]]["n"] if fn.params else None
     init = {("flag", ctxp): frozenset([E])} if ctxp else {}
     order = fn.rpo()
@@ -101,8 +102,10 @@ def flow(fn, gens):
                 if record:
                     result[e] = (ct, cur)
                 # summary of every generator function (verified by run_a on each of them): on return the
-                # flag is either what it was on entry or 0 - callees lower it, never raise it
-                state[("flag", ct)] = cur | frozenset([0])
+                # flag is either what it was on entry or 0 - callees lower it, never raise it; a callee whose own
+                # exits were shown to leave the entry value only (a helper that emits fixed code) changes nothing
+                summ = summaries.get(nd.get("o"), frozenset([E, 0]))
+                state[("flag", ct)] = (cur if E in summ else frozenset()) | (frozenset([0]) if 0 in summ else frozenset())
 
     while changed and rounds < 60:
         changed = False
@@ -182,8 +185,23 @@ def run_a(prog, res):
                     floor=15)
     gens = generator_functions(prog)
     names = set(gens)
+    # per-callee summaries, refined from the verified default {ENTRY, 0}: a function all of whose exits keep the
+    # entry value (under the summaries known so far) is recorded as flag-preserving; every step of the refinement
+    # is justified by an analysis under summaries that are themselves sound
+    summaries = {}
+    for _round in range(3):
+        changed = False
+        for name, fn in sorted(gens.items()):
+            if name in summaries or not fn.params or fn.var_type(fn.params[0]) != tables.SEXP_T:
+                continue
+            ex = flow(fn, names, summaries).get("__exits__", {})
+            if ex and all(v <= {E} for v in ex.values()):
+                summaries[name] = frozenset([E])
+                changed = True
+        if not changed:
+            break
     for name, fn in sorted(gens.items()):
-        calls = flow(fn, names)
+        calls = flow(fn, names, summaries)
         exits = calls.pop("__exits__", {})
         # the summary used at call sites: a generator function returns with the flag at its entry value or 0
         if fn.params and fn.var_type(fn.params[0]) == tables.SEXP_T:
@@ -277,6 +295,29 @@ def run_c(prog, res):
     fpv = [i for i, v in enumerate(fn.vars) if v["n"] == "fp" and v["k"] == "l"][0]
     pos = elem_positions(fn)
     dom = dominators(fn)
+    # locals every definition of which is computed from fp (`frame_base = fp - j`) stand for fp
+    defs = {}
+    for nd in fn.nodes:
+        if nd["k"] == "decl" and "d" in nd and nd.get("c"):
+            defs.setdefault(nd["d"], []).append(nd["c"][0])
+        elif nd["k"] == "bin" and nd["o"] == "=":
+            l = fn.strip(nd["c"][0])
+            if fn.nodes[l]["k"] == "ref" and "d" in fn.nodes[l]:
+                defs.setdefault(fn.nodes[l]["d"], []).append(nd["c"][1])
+        elif nd["k"] == "bin" and nd["o"].endswith("=") and nd["o"] not in ("==", "!=", "<=", ">="):
+            l = fn.strip(nd["c"][0])
+            if fn.nodes[l]["k"] == "ref" and "d" in fn.nodes[l]:
+                defs.setdefault(fn.nodes[l]["d"], []).append(None)
+    fpish = {fpv}
+    grew = True
+    while grew:
+        grew = False
+        for vid, ds in defs.items():
+            if vid in fpish or vid == topv or vid in fn.params:
+                continue
+            if ds and all(d is not None and (fn.refs_in(d) & fpish) for d in ds):
+                fpish.add(vid)
+                grew = True
     for opname in ("SEXP_OP_TAIL_CALL", "SEXP_OP_APPLY1"):
         code = enum.get(opname)
         starts = [b for b in fn.blocks.values() if b.lk == "case" and b.clo == code]
@@ -299,7 +340,7 @@ def run_c(prog, res):
                 nd = fn.nodes[e]
                 if nd["k"] == "bin" and nd["o"] == "=":
                     l = fn.strip(nd["c"][0])
-                    if fn.nodes[l]["k"] == "ref" and fn.nodes[l].get("d") == topv and fpv in fn.refs_in(nd["c"][1]):
+                    if fn.nodes[l]["k"] == "ref" and fn.nodes[l].get("d") == topv and (fn.refs_in(nd["c"][1]) & fpish):
                         rebase.append(pos.get(e))
             if b.ln == "goto:make_call":
                 gotos.append(bid)
